@@ -492,7 +492,21 @@ func lk2Exec(c *Ctx, w *lk2World, line string) *lk2World {
 				stuck = " stuck"
 			}
 		}
-		c.Obs("END map=%s%s", lk2Map(w.l), stuck)
+		m := lk2Map(w.l)
+		c.Obs("END map=%s%s", m, stuck)
+		// nothing is left behind: with every call matched by its release (also after failed
+		// TryLocks) the map is empty (Props/C16Locker.lean map_empty_when_idle)
+		if stuck == "" && m != "-" {
+			idle := true
+			for g := range w.held {
+				if len(w.held[g]) > 0 {
+					idle = false
+				}
+			}
+			if idle {
+				c.Oracle("nobody holds or waits for a lock any more but the locker's map is not empty: %s (an entry was left behind)", m)
+			}
+		}
 		w.stop()
 		return nil
 	case "STRESS":
@@ -664,7 +678,8 @@ func lk2Run(c *Ctx) error {
 		"quiescence (result, per goroutine held/waiting, the reference map Locker.locks), then drained and END; " +
 		"non-trivial = at least one call was observed parked and returned later AND at least one TryLock failed; distinct by trace hash. " +
 		"+ per run one free-running STRESS trace (holder/waiter(s)/TryLock-poller episodes on one key, oracle only: a holder's " +
-		"Unlock never fails, never two holders, final reference count = number of failed TryLocks)"
+		"Unlock never fails, never two holders, the map is empty once everybody is done – also after failed TryLocks); " +
+		"the same strict oracle at every END of a scripted trace"
 	if c.Replay != nil {
 		var w *lk2World
 		for _, l := range c.Replay {
@@ -842,30 +857,38 @@ func lk2Episode(c *Ctx, rep *lk2StressRep, r *rand.Rand, ep int) bool {
 	var attempts, failed atomic.Int64
 	var won atomic.Bool
 	pollerDone := make(chan struct{})
-	go func() {
-		defer close(pollerDone)
-		for !stop.Load() {
-			attempts.Add(1)
-			if !l.TryLock(key) {
-				failed.Add(1)
-				// pace: a poller that hammers Locker.mu pushes it into starvation mode and the
-				// holder's Unlock then takes a millisecond; a paced one meets the hand-off window
-				for t0 := time.Now(); pace > 0 && time.Since(t0) < pace; {
+	// 1..3 pollers: a TryLock that is tried inside the package mutex can only land after the
+	// holder's Unlock section is over; several pollers make that short window likely to be met too
+	nPollers := 1 + ep%3
+	var pwg sync.WaitGroup
+	go func() { pwg.Wait(); close(pollerDone) }()
+	pwg.Add(nPollers)
+	for pi := 0; pi < nPollers; pi++ {
+		go func() {
+			defer pwg.Done()
+			for !stop.Load() {
+				attempts.Add(1)
+				if !l.TryLock(key) {
+					failed.Add(1)
+					// pace: a poller that hammers Locker.mu pushes it into starvation mode and the
+					// holder's Unlock then takes a millisecond; a paced one meets the hand-off window
+					for t0 := time.Now(); pace > 0 && time.Since(t0) < pace; {
+					}
+					continue
 				}
-				continue
+				if released.Load() && !waiterEntered.Load() {
+					won.Store(true)
+				}
+				enterW("poller")
+				runtime.Gosched()
+				writers.Add(-1)
+				if err := l.Unlock(key); err != nil {
+					unlockErr("poller", "Unlock", err)
+					return
+				}
 			}
-			if released.Load() && !waiterEntered.Load() {
-				won.Store(true)
-			}
-			enterW("poller")
-			runtime.Gosched()
-			writers.Add(-1)
-			if err := l.Unlock(key); err != nil {
-				unlockErr("poller", "Unlock", err)
-				return
-			}
-		}
-	}()
+		}()
+	}
 	for deadline := time.Now().Add(5 * time.Second); attempts.Load() < 100 && time.Now().Before(deadline); {
 		runtime.Gosched()
 	}
@@ -888,14 +911,9 @@ func lk2Episode(c *Ctx, rep *lk2StressRep, r *rand.Rand, ep int) bool {
 	if won.Load() {
 		c.Count("stress:poller-won-handoff")
 	}
-	// everybody joined: the references left are exactly the failed TryLocks
-	n := failed.Load()
-	want := "-"
-	if n > 0 {
-		want = fmt.Sprintf("%s=%d", key, n)
-	}
-	if got := lk2Map(l); got != want {
-		rep.report("leak", ep, "entry leak/loss: map says %s, failed TryLocks %d", got, n)
+	// everybody joined: nothing is left behind, a failed TryLock gives its reference back
+	if got := lk2Map(l); got != "-" {
+		rep.report("leak", ep, "entry left behind: everybody is done but the map says %s (failed TryLocks in this episode: %d)", got, failed.Load())
 	}
 	return true
 }
